@@ -3647,6 +3647,11 @@ class sptensor:
         True
         """
         ndims = self.ndims
+        if self.nnz == 0:
+            # Nothing is stored, so every slice is empty and there is nothing to renumber
+            if return_inverse:
+                return self.copy(), {n: np.array([], dtype=int) for n in range(ndims)}
+            return self.copy()
         subs = np.zeros(self.subs.shape, dtype=int)
         shape = []
         idx_map = {}
